@@ -1699,6 +1699,9 @@ var opForward = []struct{ fn, callee string }{
 	// management operations that must not be acknowledged without having been carried out
 	{fSrv + "Snapshot", fRep + "Snapshot"}, {fRep + "Snapshot", fRep + "createDisk"}, {fRep + "createDisk", fRep + "createNewHead"},
 	{fSrv + "Revert", fRep + "Revert"}, {fRep + "Revert", fRep + "revertDisk"},
+	{fSrv + "SetRebuilding", fRep + "SetRebuilding"}, {fSrv + "SetReplicaMode", fRep + "SetReplicaMode"}, {fSrv + "SetCheckpoint", fRep + "SetCheckpoint"},
+	{fSrv + "Resize", fRep + "Resize"}, {fSrv + "RemoveDiffDisk", fRep + "RemoveDiffDisk"}, {fSrv + "ReplaceDisk", fRep + "ReplaceDisk"},
+	{fSrv + "SetRevisionCounter", fRep + "SetRevisionCounter"}, {fSrv + "UpdateCloneInfo", fRep + "UpdateCloneInfo"},
 	{fRep + "SetRevisionCounter", fRep + "writeRevisionCounter"}, {fRep + "SetRevisionCounterCloneReplica", fRep + "writeRevisionCounter"},
 	// protocol reads that must not be answered from a cache: the answer changes behind the caller's back
 	{"(*backend/remote.Remote).info", "(*net/http.Client).Do"},
@@ -1779,7 +1782,7 @@ func ruleOpForward(rule string) ruleFn {
 			}
 			c.Guard(rule, fn, sites, "report success", nil, need)
 		}
-		if n < 29 {
+		if n < 37 {
 			c.Undecided(rule, "vacuity-floor", "", fmt.Sprintf("only %d data-path functions found", n))
 		}
 	}
